@@ -5,11 +5,18 @@
 //!   `layout <shape> <cfg>`   → byte offset and type of every proof element, from the recorded
 //!                              verifier transcript (model: layout of `verifierSchedule`);
 //!   `inststream <cols>`      → field elements absorbed for the plain instance columns;
-//!   `scalar <64 hex>`        → verdict/value of the checked scalar decoder.
+//!   `scalar <64 hex>`        → verdict/value of the checked scalar decoder;
+//!   `point`, `pointinput`, `absorbed`, `parse`, `vkinput` (see the functions below);
+//!   `verifyparse` / `batchparse` (entry.rs), `csdebug` (mini.rs).
+//! Modules: `absorb` (logging hash states), `entry` (every verification entry point on every mutant class, real
+//! zk_stdlib relations), `mini` (hand-made circuit: one key component at a time, the advice-phase gap of
+//! transcript_repr, cross-column public-input edits, absorption-collision search).
 //! Oracle (mutation sweep): every mutated proof / public input / verifying key / transcript hash
 //! must make verification return an error (never accept, never panic).
 
 mod absorb;
+mod entry;
+mod mini;
 
 use absorb::{blake_answer, hex, point_coords, poseidon_answer, take_hlog, HEv, RecBlake, RecPoseidon};
 use blake2b_simd::State as Blake2bState;
@@ -295,6 +302,34 @@ where
         Ok(false) => {}
         other => ctx.oracle_fail("accepted-mutant:other-hash", "proof verified under a different transcript hash", json!({"case": desc, "result": format!("{other:?}")})),
     }
+}
+
+/// Density: EVERY byte position of the proof gets one substitution (XOR with a seeded non-zero mask); all must be
+/// rejected. The evidence records the number of positions covered and the proof length (they must be equal).
+fn byte_cover<H: TranscriptHash>(ctx: &mut Ctx, hname: &str, m: &Member, p: &Proven, seed: u64)
+where
+    F: Hashable<H> + Sampleable<H>,
+    G1Projective: Hashable<H>,
+{
+    let mut rng = ctx.rng(&format!("bytecover{seed}"));
+    let vk = m.pk.get_vk();
+    let mut covered = 0u64;
+    for i in 0..p.proof.len() {
+        let mask: u8 = rng.gen_range(1..=255);
+        let mut pr = p.proof.clone();
+        pr[i] ^= mask;
+        covered += 1;
+        match verify::<H>(&m.params, vk, m.fp.n_committed, &p.insts, &p.coms, &pr) {
+            Ok(false) => {}
+            r => ctx.oracle_fail(
+                &format!("accepted-mutant:byte-cover:{hname}"),
+                "verifier accepted (or panicked on) a proof with one byte changed",
+                json!({"params": format!("{:?}", m.fp), "k": m.k, "seed": seed, "byte": i, "mask": mask, "result": format!("{r:?}"), "proof": hex(&p.proof)}),
+            ),
+        }
+    }
+    ctx.count_n(&format!("mutant:byte-cover:{hname}"), covered);
+    ctx.set_extra(&format!("byte_cover_{hname}"), json!({"proof_len": p.proof.len(), "positions_covered": covered, "elements": p.layout.len()}));
 }
 
 fn wrong_vk(ctx: &mut Ctx, m: &Member, p: &Proven, others: &[(&str, &Member)]) {
@@ -762,6 +797,8 @@ fn main() {
     };
     scalar_cases(&mut ctx);
     point_cases(&mut ctx);
+    entry::run(&mut ctx);
+    mini::run(&mut ctx);
     let n_parse = if ctx.quick() { 3 } else { 12 };
     let every = FamParams {
         n_adv0: 4,
@@ -803,6 +840,9 @@ fn main() {
                 );
             }
             mutate_all::<Blake2bState, PoseidonState<F>>(&mut ctx, &base, &p, n_flips, 300 + np as u64);
+            if np == 1 {
+                byte_cover::<Blake2bState>(&mut ctx, "blake", &base, &p, 300);
+            }
             wrong_vk(&mut ctx, &base, &p, &[("other-k", &other_k), ("other-circuit", &other_circuit), ("other-fixed", &other_fixed)]);
         }
     }
@@ -812,6 +852,7 @@ fn main() {
         absorbed_case(&mut ctx, &base, &p, true);
         parse_cases::<PoseidonState<F>>(&mut ctx, &base, &p, n_parse, 310);
         mutate_all::<PoseidonState<F>, Blake2bState>(&mut ctx, &base, &p, n_flips, 310);
+        byte_cover::<PoseidonState<F>>(&mut ctx, "poseidon", &base, &p, 310);
     }
     for i in 0..n_members {
         let fp = sample_params(&mut rng);
